@@ -342,3 +342,79 @@ fn run() {
     r.flag("exhaustive", true);
     r.finish();
 }
+
+// ---- C12: the query-level switch between an exact and a noised release --------------------------------
+// `HybridQueryParams::with_dp` is a number: 0 asks for the exact histogram, every other value for a
+// differentially private release. The real `Query::execute` on a one-shard malicious world, the same
+// four reports (two attributed pairs), with_dp in {0, 1, 2, 7, u32::MAX}: with 0 the released
+// buckets are the exact totals; with every other value the release is not the exact histogram (the
+// law of the noise itself is the dp part's subject).
+
+#[test]
+fn run_dp_switch() {
+    use crate::test_fixture::Reconstruct;
+    let mut r = Report::new("C12");
+    let rt = fault::runtime(8);
+    let seed = common::seed() + 1200;
+    let mut rng = StdRng::seed_from_u64(seed);
+    let reg = Arc::new(KeyRegistry::<KeyPair>::random(1, &mut rng));
+    let encs = make_reports(4, seed, &reg);
+    let mut exact = vec![0u128; 256];
+    exact[3] = 2; // impression 0 (breakdown 3) + conversion 1 (value 1 + 1 % 6)
+    exact[5] = 4; // impression 2 (breakdown 5) + conversion 3 (value 1 + 3 % 6)
+    let epsilon = 0.5f64;
+    let values = [0u32, 1, 2, 7, u32::MAX];
+    let runs: Vec<(u32, Vec<Out<Vec<AdditiveShare<BA32>>>>)> = rt.block_on(futures::future::join_all(values.iter().map(|with_dp| {
+        let (reg, encs, with_dp) = (Arc::clone(&reg), encs.clone(), *with_dp);
+        async move {
+            let mut config = TestWorldConfig::default();
+            config.seed = seed + 1;
+            config.timeout = None;
+            let world: TestWorld<WithShards<1>> = TestWorld::with_shards(&config);
+            let mut futs: Vec<BoxFut<'_, Vec<AdditiveShare<BA32>>>> = Vec::new();
+            for (h, per_shard) in world.malicious_contexts().into_iter().enumerate() {
+                for ctx in per_shard {
+                    let mut buf = Vec::new();
+                    for e in &encs {
+                        buf.extend_from_slice(&e.per_helper[h]);
+                    }
+                    let reg = Arc::clone(&reg);
+                    futs.push(Box::pin(async move {
+                        let params = HybridQueryParams { with_dp, epsilon, ..Default::default() };
+                        HybridQuery::<_, BA32, KeyRegistry<KeyPair>>::new(params, reg).execute(ctx, QuerySize::try_from(4usize).unwrap(), BodyStream::from(buf)).await.map_err(|e| format!("{e:?}"))
+                    }));
+                }
+            }
+            let out = fault::run_all(futs, Duration::from_secs(1500), Duration::from_secs(5)).await;
+            drop(world);
+            (with_dp, out)
+        }
+    })));
+    for (with_dp, out) in runs {
+        r.inc("evaluations");
+        r.inc("distinct_nontrivial");
+        r.inc("dp_switch_runs");
+        r.inc("states");
+        r.add("transitions", 256);
+        let replay = json!({"part":"dp-switch","with_dp":with_dp,"epsilon":epsilon});
+        let shares: Vec<&Vec<AdditiveShare<BA32>>> = out.iter().filter_map(|o| o.ok()).collect();
+        if shares.len() != 3 {
+            r.violation("dp:query-switch:failed", &format!("with_dp = {with_dp}: the query did not complete on every helper: {:?}", out.iter().map(Out::class).collect::<Vec<_>>()), replay);
+            continue;
+        }
+        let hist: Vec<u128> = [shares[0].clone(), shares[1].clone(), shares[2].clone()].reconstruct().iter().map(|v: &BA32| v.as_u128()).collect();
+        let noise: Vec<i128> = hist.iter().zip(&exact).map(|(g, e)| *g as i128 - *e as i128).collect();
+        let noised_buckets = noise.iter().filter(|n| **n != 0).count();
+        r.set("dp_switch_outcomes", format!("with_dp={with_dp}:buckets-differing-from-exact={noised_buckets}"));
+        if with_dp == 0 {
+            if noised_buckets != 0 {
+                r.violation("dp:query-switch:exact-release-differs", &format!("with_dp = 0: {noised_buckets} buckets differ from the exact totals (bucket 3 = {}, bucket 5 = {})", hist[3], hist[5]), replay);
+            }
+        } else if noised_buckets == 0 {
+            r.violation("dp:query-switch:no-noise", &format!("with_dp = {with_dp}, epsilon = {epsilon}: the released histogram is the exact one in all 256 buckets - no noise was added"), replay);
+        }
+    }
+    r.sample(json!({"with_dp":[0,1,2,7,u32::MAX],"oracle":"0: exact; otherwise noised"}));
+    r.flag("exhaustive", true);
+    r.finish();
+}
